@@ -768,6 +768,67 @@ def forced_result(fn, start, target_local=0):
     return out
 
 
+def variant_chains(fn, start, target_local=0):
+    """set of variant chains the return place can hold at the returns reachable from block `start`: ("Ok", "Some"),
+    ("None",), ... (outermost first, as deep as the constructors are written in this body); ("?",) for a value that is not
+    built by an enum constructor on that path.  Forward propagation over the sub-graph entered at `start`."""
+    UNK = frozenset([("?",)])
+
+    def transfer(st, blk):
+        for s_ in blk["stmts"]:
+            if s_["k"] != "assign" or s_["lhs"].get("p"):
+                if s_["k"] == "assign":
+                    st[s_["lhs"]["l"]] = UNK
+                continue
+            rv = s_["rv"]
+            val = UNK
+            if rv["k"] == "use" and rv.get("ops") and "l" in rv["ops"][0] and not rv["ops"][0].get("p"):
+                val = st.get(rv["ops"][0]["l"], UNK)
+            elif rv["k"] == "agg" and rv.get("agg") == "adt" and rv.get("variant"):
+                inner = None
+                ops = rv.get("ops", [])
+                if len(ops) == 1 and "l" in ops[0] and not ops[0].get("p"):
+                    inner = st.get(ops[0]["l"])
+                if inner and inner != UNK:
+                    val = frozenset((rv["variant"],) + ch for ch in inner)
+                else:
+                    val = frozenset([(rv["variant"],)])
+            st[s_["lhs"]["l"]] = val
+        t = blk["term"]
+        if t["k"] == "call":
+            st[t["dest"]["l"]] = UNK
+        return st
+    state = {start: {}}
+    work = [start]
+    n = 0
+    while work and n < 20000:
+        n += 1
+        b = work.pop()
+        st = transfer(dict(state[b]), fn.blocks[b])
+        for sx in fn.succ(b):
+            if fn.is_cleanup(sx):
+                continue
+            old = state.get(sx)
+            if old is None:
+                state[sx] = dict(st)
+                work.append(sx)
+            else:
+                changed = False
+                for l in set(old) | set(st):
+                    u = old.get(l, UNK) | st.get(l, UNK) if (l in old and l in st) else UNK
+                    if old.get(l) != u:
+                        old[l] = u
+                        changed = True
+                if changed:
+                    work.append(sx)
+    out = set()
+    for rb in fn.return_blocks():
+        if rb in state:
+            st = transfer(dict(state[rb]), fn.blocks[rb])
+            out |= set(st.get(target_local, UNK))
+    return out
+
+
 def false_forces_false(fn, call):
     """a bool-valued call's result is used monotonically for the function's own bool result: every use of it (through plain
     copies) is either handed on towards the return place, or a branch whose `false` edge can only return false.  Returns
